@@ -106,7 +106,7 @@ def units(tier):
             out.append({'fam': 'grouped', 'cfg': ci, 'Lk': 2 if tier == 'quick' else 3, 'shard': [sh, 2 if tier == 'quick' else 8]})
             # the same histories under two levels of group_by: two outer groups, each with an inner group of the same key value
             # (group indices must be unique per store, not per parent)
-            out.append({'fam': 'nested', 'cfg': ci, 'Lk': 2 if tier == 'quick' else 3, 'shard': [sh, 2 if tier == 'quick' else 8]})
+            out.append({'fam': 'nested', 'cfg': ci, 'Lk': 2, 'shard': [sh, 2 if tier == 'quick' else 8]})   # per-key length 2 in both tiers (cost)
     return out
 
 
